@@ -41,6 +41,14 @@ META = {
 }
 
 
+def run_extra(ctx: Ctx):
+    # ---------------------------------------------------------------- R17.6 conversions are not answered from stale or lossy memos
+    from .common import process_state_rule
+    process_state_rule(ctx, "R17.6", [ctx.repo.func(q) for q in ("Project.dateToIdx", "Project.idxToDate", "Scoreboard.dateToIdx", "Scoreboard.idxToDate",
+                                                              "WorkingHours.onShift")],
+                       "an index or a date is answered from a conversion made under another start or resolution", census=False)
+
+
 def run(ctx: Ctx):
     repo = ctx.repo
     i2d = repo.func("Scoreboard.idxToDate")
